@@ -146,6 +146,23 @@ pub fn run(tape: &[u8], ctx: &mut Ctx) {
 		let mut sc = SerializerConfig::new(&case.crate_schema);
 		if let Ok(bytes) = serde_avro_fast::to_datum_vec(&p, &mut sc) {
 			ctx.violation(format!("C13/injection-accepted/{m}"), format!("schema {} presentation {:?} ({m}) returned Ok with bytes {}", case.json, p, hex(&bytes)));
+			continue;
+		}
+		// the rejected record must not disturb the next one: the same configuration (as the
+		// documentation recommends, and as the container writer does) serialises the value with
+		// the target's fields in reverse order to the schema-order bytes - no panic, no misplaced field
+		let mut t3 = t0.clone();
+		let mut pr = Presenter::new(&mut t3, &env, Mode::Promised);
+		pr.forced = Some(ForcedRecord { target, order: (0..nfields).rev().collect(), omit: vec![], style: k % 3 });
+		let p2 = pr.present(&case.schema, &value);
+		evals += 1;
+		match serde_avro_fast::to_datum_vec(&p2, &mut sc) {
+			Ok(bytes) => {
+				if first_bytes.as_ref().map_or(false, |fb| *fb != bytes) {
+					ctx.violation("C13/bytes-differ-after-rejected-record", format!("schema {} value {:?}: after the rejected presentation ({m}) the same configuration wrote {} for the reversed field order instead of {}", case.json, value, hex(&bytes), hex(first_bytes.as_ref().unwrap())));
+				}
+			}
+			Err(e) => ctx.violation("C13/permuted-record-rejected-after-rejected-record", format!("schema {} value {:?}: after the rejected presentation ({m}) the reversed field order was refused: {e}", case.json, value)),
 		}
 	}
 	ctx.sub_evaluations = evals;
